@@ -1,4 +1,5 @@
 //! Verification harness for rust-simplicity: property-based testing and fuzzing.
+pub mod cbind;
 pub mod engine;
 pub mod gen;
 pub mod model;
